@@ -52,6 +52,12 @@ fn main() {
     let args: Vec<String> = std::env::args().collect();
     let cmd = args.get(1).map(|s| s.as_str()).unwrap_or("");
     match cmd {
+        "miri-smoke" => {
+            // small single-threaded workload for `cargo +nightly miri run`: tools functions, writer, iterator, async next() loop
+            let n: u64 = args.get(2).and_then(|s| s.parse().ok()).unwrap_or(40);
+            let seed: u64 = args.get(3).and_then(|s| s.parse().ok()).unwrap_or(1);
+            std::process::exit(props::c05::miri_smoke(n, seed));
+        }
         "c17-massif-case" => {
             props::c17::massif_case_body(args.get(2).map(|s| s.as_str()).unwrap_or("baseline"));
         }
